@@ -1,7 +1,7 @@
 --------------------------- MODULE Trace_ThreadPool ---------------------------
 (* Code -> spec direction for C08 (binding C): logs recorded from the real pool through the hook
    points in humphrey/src/thread/{pool,recovery}.rs (plus Task_Start / Task_End written by the
-   harness-supplied task bodies and Reset / Quiesced / C_Hang written by the harness driver) are
+   harness-supplied task bodies and Reset / Mon_Restarted / Quiesced / C_Hang written by the harness driver) are
    replayed against ThreadPool's actions.
 
    Record shape (one JSON object per line, every field always present):
@@ -103,6 +103,9 @@ Ev_Recovery ==
   \/ Is("Rec_Respawn") /\ E.th = 0 - 2 /\ rpc = "respawn" /\ rw = E.a /\ Rec_Respawn /\ Adv
 
 Ev_Harness ==
+  \* Humphrey's own monitor stream, read by the driver after the run: b = number of ThreadRestarted
+  \* events naming worker a.  Must equal the number of respawns of that id in the model.
+  \/ Is("Mon_Restarted") /\ IsW(E.a) /\ inc[E.a] = E.b /\ Same /\ Adv
   \/ Is("Quiesced") /\ RunOver /\ sending = {} /\ Same /\ Adv
   \* a = 1: drop() has not returned after the escalating waits.  Explicable only where the model's
   \* caller is blocked for ever, i.e. under DropJoinsRecovery.
